@@ -1026,11 +1026,20 @@ static char *detect_include_guard(Token *tok) {
   return NULL;
 }
 
+// Returns a name for the file itself, whatever path, symbolic link or
+// hard link leads to it.
+static char *file_identity(char *path) {
+  struct stat st;
+  if (stat(path, &st) != 0)
+    return NULL;
+  return format("%ld:%ld", (long)st.st_dev, (long)st.st_ino);
+}
+
 static Token *include_file(Token *tok, char *path, Token *filename_tok, bool searched) {
   // Check for "#pragma once". The same file may be reached through
-  // different spellings of its path, so compare canonical paths.
-  char *canon = realpath(path, NULL);
-  if (canon && hashmap_get(&pragma_once, canon))
+  // different paths, so files are told apart by what they are on disk.
+  char *id = file_identity(path);
+  if (id && hashmap_get(&pragma_once, id))
     return tok;
 
   // If we read the same file before, and if the file was guarded
@@ -1233,8 +1242,8 @@ static Token *preprocess2(Token *tok) {
     }
 
     if (equal(tok, "pragma") && equal(tok->next, "once")) {
-      char *canon = realpath(tok->file->name, NULL);
-      hashmap_put(&pragma_once, canon ? canon : tok->file->name, (void *)1);
+      char *id = file_identity(tok->file->name);
+      hashmap_put(&pragma_once, id ? id : tok->file->name, (void *)1);
       tok = skip_line(tok->next->next);
       continue;
     }
